@@ -26,6 +26,24 @@ theorem cd_inv_run {V : Type} [DecidableEq V] (up : Str → Str) (up_idem : ∀ 
     (odKeys (run up ([] : Store V) ops).1).Nodup ∧ ∀ k ∈ odKeys (run up ([] : Store V) ops).1, up k = k :=
   inv_run up_idem ops inv_nil
 
+/-- The driver's per-step trace (what the correspondence run compares with the implementation)
+    shows the outputs of `run`, and every key list in it is duplicate-free and folded. -/
+theorem cd_trace_keys_upper {V : Type} [DecidableEq V] (up : Str → Str) (up_idem : ∀ k, up (up k) = up k)
+    (ops : List (Op V)) :
+    (trace up ([] : Store V) ops).map Prod.fst = (run up [] ops).2 ∧
+    ∀ r ∈ trace up ([] : Store V) ops, r.2.Nodup ∧ ∀ k ∈ r.2, up k = k :=
+  ⟨trace_fst ops [], trace_keys_inv up_idem ops inv_nil⟩
+
+/-- `__init__`: `OrderedDict.__init__` already stores every pair through the folding
+    `__setitem__`, so the re-keying loop that follows never finds a key to change. -/
+theorem cd_init_is_sequential_setitem {V : Type} (up : Str → Str) (up_idem : ∀ k, up (up k) = up k)
+    (args : List (Str × V)) : cdInit up args = cdUpdate up [] args := by
+  unfold cdInit; exact cdRekey_noop (inv_cdUpdate up_idem args inv_nil).2
+
+/-- `copy()` (two nested constructor calls) reproduces the store, order included. -/
+theorem cd_copy_identity {V : Type} (up : Str → Str) (up_idem : ∀ k, up (up k) = up k)
+    (s : Store V) (h : Inv up s) : cdCopy up s = s := cdCopy_self up_idem h
+
 /-- First-insertion order: assigning to a name that is present (in any case) leaves the key list
     unchanged, assigning to a new name appends its folded form. -/
 theorem cd_first_insertion_order {V : Type} (up : Str → Str) (s : Store V) (k : Str) (v : V) :
